@@ -36,13 +36,31 @@ package validate
 //@   trusted
 //@   results t, outCaps, err
 //@   ensures caps_wf: (!isnil(caps) && capOK(caps)) ==> (!isnil(outCaps) && capOK(outCaps))
-//@ func compareCedarType
+// compareCedarType returns 0 only for two types of the same kind (the kinds have pairwise different
+// ranks), and for extension types only when they carry the same name: `Long < datetime` and
+// `datetime < duration` compare unequal.
+//@ func cedarTypeKindRank
+//@   props C15
 //@   pure
-//@   trusted
+//@   results r
+//@   ensures long: (r == 4) == (t is typeLong)
+//@   ensures ext: (r == 9) == (t is typeExtension)
+//@   ensures set: (r == 6) == (t is typeSet)
+//@   ensures record: (r == 7) == (t is typeRecord)
+//@   ensures entity: (r == 8) == (t is typeEntity)
+//@   ensures range: -1 <= r && r <= 9
+//@ func compareCedarType
+//@   props C15
+//@   pure
+//@   results r
+//@   ensures same_kind: r == 0 ==> cedarTypeKindRank#0(a) == cedarTypeKindRank#0(b)
+//@   ensures same_extension: (r == 0 && (a is typeExtension)) ==> ((b is typeExtension) && a.(typeExtension).name == b.(typeExtension).name)
 //@ func (Validator) typeOfComparison
 //@   props C15
 //@   results t, c, err
 //@   ensures same_type: (err == nil && v.typeOfExpr#0(env, left, caps) != nil && v.typeOfExpr#0(env, right, caps) != nil) ==> compareCedarType#0(v.typeOfExpr#0(env, left, caps), v.typeOfExpr#0(env, right, caps)) == 0
+//@   ensures long_with_long: (err == nil && (v.typeOfExpr#0(env, left, caps) is typeLong) && v.typeOfExpr#0(env, right, caps) != nil) ==> (v.typeOfExpr#0(env, right, caps) is typeLong)
+//@   ensures ext_with_same_ext: (err == nil && (v.typeOfExpr#0(env, left, caps) is typeExtension) && v.typeOfExpr#0(env, right, caps) != nil) ==> ((v.typeOfExpr#0(env, right, caps) is typeExtension) && v.typeOfExpr#0(env, left, caps).(typeExtension).name == v.typeOfExpr#0(env, right, caps).(typeExtension).name)
 
 // Termination of the walk over the (possibly cyclic) entity-type hierarchy:
 // every call marks its type as seen before it recurses, `seen` only grows, and
